@@ -409,12 +409,12 @@ def classify(ctx, rejected, label):
     for stage, combos in enumerate(stages):
         if not todo:
             break
-        if stage > 0 and len(todo) > 30:
-            # many recordings that no small flag set explains (a broken tree): classify a sample, the rest is
-            # reported as unexplained right away
-            for c in todo[30:]:
+        if stage > 0 and len(todo) > 300:
+            # very many recordings that no single flag explains (a broken tree): classify a sample, the rest
+            # is reported as unexplained right away
+            for c in todo[300:]:
                 why[c["id"]] = ["unexplained"]
-            todo = todo[:30]
+            todo = todo[:300]
         batch = []
         for c in todo:
             for k, fl in enumerate(combos):
@@ -533,6 +533,12 @@ def mc_cfg(ctx, name, consts, invariants, symmetry=True, witness=False):
     with open(path, "w") as f:
         f.write(txt)
     return path
+
+
+def tlc_workers(n):
+    """TLC worker threads of a big (M) run; VERIF_NPROC (development on a shared machine) caps it."""
+    cap = int(os.environ.get("VERIF_NPROC", 0))
+    return min(n, cap) if cap else n
 
 
 def unseen(res):
